@@ -19,7 +19,7 @@ SPACE = [
     ("contraction", ["segmented", "SP", "gen-ss", "gen-pd", "3-primitives"]),
     ("shell_order", ["grouped", "reversed", "interleaved", "rotated", "perm2", "perm3", "skip-first-center"]),
     ("conventions", ["own", "fchk", "molden", "wfn", "mwfn", "horton2", "cca", "orca", "scr1", "scr2"]),
-    ("mo", ["restricted", "rohf", "rohf-triplet", "beta-hole", "fractional", "aminusb", "unrestricted", "unrestricted-na>nb", "occupied-only", "irreps", "unrestricted-occupied-only"]),
+    ("mo", ["restricted", "rohf", "rohf-triplet", "beta-hole", "fractional", "aminusb", "aminusb-neg", "unrestricted", "unrestricted-na>nb", "occupied-only", "irreps", "unrestricted-occupied-only"]),
     ("extras", ["none", "rdm-scf", "rdm-scf+spin", "rdm-post", "energy-none", "title-none", "atcharges"]),
 ]
 
@@ -179,6 +179,9 @@ def build(case, target, seed=0):
         elif mokind == "aminusb":
             occs = np.array(([2.0, 1.5, 0.5] + [0.0] * norb)[:norb])
             am = np.array(([0.0, 0.5, 0.5] + [0.0] * norb)[:norb])
+        elif mokind == "aminusb-neg":  # more beta than alpha electrons
+            occs = np.array(([2.0, 1.5, 0.5] + [0.0] * norb)[:norb])
+            am = np.array(([0.0, -0.5, -0.5] + [0.0] * norb)[:norb])
         irreps = np.array([f"{i + 1}a" for i in range(norb)]) if mokind == "irreps" else None
         mo = MolecularOrbitals("restricted", norb, norb, occs, c, energies, irreps, am)
     kw = dict(atnums=z, atcoords=xyz, obasis=obasis, mo=mo, energy=-76.25, title="generated wavefunction")
